@@ -37,6 +37,9 @@ CLAIMED = {
  "C17": ("error-propagation analysis on SSA: fixed point of 'propagating' functions over the call graph; per call site, value flow of the error result to a Return through phis, named results, %w / NewError / Err-field / errors.Join wrapping; path search from the non-nil edge of every nil test for a nil-error return; text-only (cause-loss) detection; not-found edges of name lookups; top-level Unwrap / empty-output returns",
          "Decides, for every position at which a filter, function, test, loader or nested template can fail, that the failure reaches the top-level return as an error that still wraps its cause, and that a failed name lookup is an error. Errors turned into values inside user callbacks and the documented tolerances are outside.",
          "One frozen exception (timestamp queries in Engine.Load), with its reason. Loader retry loops are recognised: a later loader's success may supersede an earlier loader's failure. " + COMMON_NOTE, "§2 C17"),
+ "C18": ("mutation lint with freshness analysis on SSA: every mutating operation (element store, map update/delete, append, copy destination, sort.*, slices.Sort*, reflect Set*/Swapper/Copy) in render-reachable functions must act on a container that is provably fresh (allocation, allocating helper summary, fresh-at-every-call-site parameter) or engine-internal; containers derived from interface{}-typed parameters, evaluation results or their elements are violations",
+         "Decides for every template and every context shape that twig's own code never writes through caller-derived values, and that the caller's top-level map is copied rather than adopted. Mutation by user callbacks and by methods of user types reached through attribute access is out of twig's hands and not decided.",
+         "Freshness is intra-procedural plus return/parameter summaries over static calls; a container whose origin is neither provably fresh nor data-derived counts as engine-internal. " + COMMON_NOTE, "§2 C18"),
  "C20": ("typed-AST lint (complete key literals, StructField.Index never indexed) + SSA backward-slice purity check of every store into a cache entry's lookup fields + classification of every write to the cache map (delete / statistics-only read-modify-write under the same key / pure insert) + identity of the reflect.Value that keys and serves the access",
          "Decides that a cache hit returns what a miss would compute, for every history and any number of distinct (type, name) pairs: the cache and its eviction are unobservable. reflect's FieldByName/MethodByName semantics are trusted.",
          COMMON_NOTE, "§2 C20"),
